@@ -116,6 +116,8 @@ def decide(prop, mod, tier, seed, shards, results, wall, replaying=False):
     extra = {}
     vio = {}
     vio_counts = {}
+    reached = {}
+    covered = False
     for i, r in enumerate(results):
         if not r.get("ok"):
             inconclusive.append(f"shard {i}: {r.get('error', 'failed')}\n{r.get('stderr', '')}")
@@ -143,6 +145,10 @@ def decide(prop, mod, tier, seed, shards, results, wall, replaying=False):
                         extra[k].append(x)
             else:
                 extra[k] = v
+        if r.get("cover") is not None:
+            covered = True
+            for f, lines in r["cover"].items():
+                reached.setdefault(f, set()).update(lines)
         for v in r["violations"]:
             vio.setdefault(v["key"], []).append(v)
         for k, n in r.get("violation_counts", {}).items():
@@ -211,6 +217,12 @@ def decide(prop, mod, tier, seed, shards, results, wall, replaying=False):
         "inconclusive": inconclusive[:10],
     }
     cov.update(extra)
+    if covered:
+        try:
+            from vlib import cover
+            cov["anchor_reach"] = cover.report(prop, reached)
+        except Exception as e:      # noqa - reach accounting is informative only
+            cov["anchor_reach"] = [f"not available: {e!r}"]
     ev = {
         "property_id": prop,
         "tier": tier,
@@ -229,6 +241,10 @@ def decide(prop, mod, tier, seed, shards, results, wall, replaying=False):
           f"distinct={distinct} wall={wall:.1f}s")
     if anchors:
         print(f"[{prop}] anchors: " + ", ".join(f"{k}={v}" for k, v in sorted(anchors.items())))
+    if isinstance(cov.get("anchor_reach"), list) and cov["anchor_reach"] and isinstance(cov["anchor_reach"][0], dict):
+        tot = sum(a["statement_lines"] for a in cov["anchor_reach"] if a["name"] != "(whole file)")
+        got = sum(a["reached"] for a in cov["anchor_reach"] if a["name"] != "(whole file)")
+        print(f"[{prop}] anchored statement lines reached by the workload: {got}/{tot}")
     if contracts:
         print(f"[{prop}] contract evaluations: " + ", ".join(f"{k}={v}" for k, v in sorted(contracts.items())))
     for k, o in sorted(observations.items()):
